@@ -4,6 +4,7 @@ package props
 
 import (
 	"bytes"
+	"errors"
 	"fmt"
 	"io"
 	"math"
@@ -82,14 +83,29 @@ type c08Probe struct {
 	depth       int
 	late        []*Spec // context added by a With issued as part of every probe call
 	seen        []string
-	outstanding bool // P is issued as Check ... Write with another Check in between
+	outstanding bool        // P is issued as Check ... Write with another Check in between
 	skip        int         // AddCallerSkip of the probe's logger (the probe is issued from deep enough a stack)
 	cur         *zap.Logger // the logger P is being logged through right now
 	nestedOn    bool        // P's level/time/name encoder logs ANOTHER entry through that logger before doing its work
 	inNested    bool
 	nestedCount int
 	lastWrites  [][]byte // the sink writes of the last observe
+	errOut      *memSink // the probe logger's error output
 }
+
+// c08FailCore is a core used without any logger (Check adds it to a nil CheckedEntry, as the slog handler does) whose
+// Write fails.
+type c08FailCore struct{}
+
+func (c08FailCore) Enabled(zapcore.Level) bool          { return true }
+func (c c08FailCore) With([]zapcore.Field) zapcore.Core { return c }
+func (c c08FailCore) Check(e zapcore.Entry, ce *zapcore.CheckedEntry) *zapcore.CheckedEntry {
+	return ce.AddCore(e, c)
+}
+func (c08FailCore) Write(zapcore.Entry, []zapcore.Field) error {
+	return errors.New("bare core write failed")
+}
+func (c08FailCore) Sync() error { return nil }
 
 // nest is what the wrapped encoder callbacks of the probe do first.
 func (p *c08Probe) nest() {
@@ -141,7 +157,8 @@ func newC08Probe(t *rapid.T) *c08Probe {
 			opts = append(opts, zap.AddCallerSkip(p.skip))
 		}
 	}
-	opts = append(opts, zap.ErrorOutput(&memSink{}))
+	p.errOut = &memSink{}
+	opts = append(opts, zap.ErrorOutput(p.errOut))
 	lg := zap.New(zapcore.NewCore(enc, p.sink, zapcore.DebugLevel), opts...)
 	if p.c.ent.LoggerName != "" {
 		lg = lg.Named(p.c.ent.LoggerName)
@@ -530,6 +547,17 @@ func propC08Sequential(t *rapid.T) {
 				t.Fatalf("%s: the field map an observer was handed BEFORE the history has changed under its reader's feet:\n was %s\n now %s\nhistory %v", name, clipS(keptText), clipS(now), h.names)
 			}
 		}
+	}
+	// entries written through a bare core (no logger involved) whose Write fails, right after P has been logged:
+	// whichever pooled objects they are handed, P's logger's error output hears nothing of them
+	errBefore := len(p.errOut.writes)
+	for i := 0; i < 3; i++ {
+		if ce := (c08FailCore{}).Check(zapcore.Entry{Level: zapcore.InfoLevel, Message: "bare core entry"}, nil); ce != nil {
+			ce.Write()
+		}
+	}
+	if n := len(p.errOut.writes) - errBefore; n != 0 {
+		t.Fatalf("the error output of P's logger received %d reports about entries that were written through a bare core, not through that logger: %q", n, p.errOut.writes[errBefore:])
 	}
 	if bytes.Contains(discard.all(), []byte("POISON")) {
 		t.Fatalf("poisoned pool buffer content is visible in another logger's output")
